@@ -582,21 +582,32 @@ deriving DecidableEq, Repr
 def sGDOC : Text := [47, 47, 33]
 def sRDOC : Text := [47, 47, 47]
 
-/-- `scan_grammar_doc_inner` / `scan_rule_doc_inner` up to their `return`:
+/-- the optional blank behind a doc marker (`space? ` of `grammar_doc` / `line_doc`):
 ```python
-if self.peek() in (" ", "	"): self.next()
+if self.peek() in (" ", "	"):
+    self.next()
+    self.start = self.pos
+``` -/
+def docBlank (s : St) : St :=
+  match s.rest with
+  | c :: _ => if c == 32 || c == 9 then let s' := s.adv 1; { s' with start := s'.pos } else s
+  | [] => s
+
+/-- `scan_grammar_doc_inner` / `scan_rule_doc_inner` up to their `return` (after the `fix:`
+    commit 77be14c: the blank belongs to the marker, the token is `inner_doc`):
+```python
+if self.peek() in (" ", "	"):
+    self.next()
+    self.start = self.pos
 self.emit(COMMENT_TEXT, self.scan_until(RE_NEWLINE))
 ```
 `scan_until` returns `self.grammar[self.start : <line break or end>]`; both callers run right
-after an `emit`, so `self.start == self.pos` on entry and the slice is the text consumed here
-(including the optional blank). -/
+after an `emit`, so `self.start == self.pos` on entry (and again after the blank) and the slice
+is the text consumed by `scan_until`. -/
 def docInner : M Unit := fun s =>
-  let sp := match s.rest with
-    | c :: _ => if c == 32 || c == 9 then 1 else 0
-    | [] => 0
-  let r := s.rest.drop sp
-  let n := (findNewline r).getD r.length
-  .ok () ((s.adv (sp + n)).emit .commentText (s.rest.take (sp + n)))
+  let s1 := docBlank s
+  let n := (findNewline s1.rest).getD s1.rest.length
+  .ok () ((s1.adv n).emit .commentText (s1.rest.take n))
 
 /-- `if value := self.scan(RE_MODIFIER): self.emit(MODIFIER, value); self.skip_trivia()` -/
 def optModifier : M Unit := do
